@@ -291,6 +291,45 @@ def parse_with_tlc(ctx, recs, label):
     return results
 
 
+
+def writer_and_thread_cases(ctx, exe, enc):
+    """two more ways an encoder meets the outside world: a NON-BLOCKING sink that answers WouldBlock once after `room` bytes (the call
+    must fail, or else have delivered exactly the stream), and SEVERAL THREADS encoding the same families at the same moment, each into
+    its own buffer (every output must be the one a lone encode produces)"""
+    op = "text_encode" if enc == "text" else "pb_encode"
+    small = [{"name": "a", "help": "h", "type": "COUNTER", "metrics": [{"labels": [["l", "v"]], "counter": F(1.0)}]},
+             {"name": "b", "help": "h é", "type": "HISTOGRAM", "metrics": [{"labels": [], "hist": {"count": 3, "sum": F(4.5), "b": [[F(1.0), 1], [F(2.0), 3]]}}]},
+             {"name": "c", "help": "", "type": "GAUGE", "metrics": [{"labels": [["x", "1"]], "gauge": F(-2.5)}, {"labels": [["x", "2"]], "gauge": F(7.0)}]}]
+    big = small[:1] + [{"name": "many", "help": "h", "type": "COUNTER", "metrics": [{"labels": [["i", "%05d" % k]], "counter": F(float(k))} for k in range(600)]}] + small[1:]
+    ref = run_api(ctx, exe, [{"id": 0, "calls": [{"op": op, "lit": small}]}], "wbref")[0][0]
+    if "ok" not in ref:
+        ctx.violation("writer:reference-failed", "a plain encode of three ordinary families failed: %s" % json.dumps(ref)[:200], {"calls": [{"op": op, "lit": small}]})
+        return 0
+    refhex = ref["ok"]["hex"]
+    T = len(refhex) // 2
+    calls = [{"op": op, "lit": small, "mode": "wouldblock", "after": room} for room in range(0, T + 2)]
+    rs = run_api(ctx, exe, [{"id": 0, "calls": calls}], "wb")[0]
+    n = 0
+    for c, x in zip(calls, rs):
+        rp = {"calls": [c]}
+        if "panic" in x:
+            ctx.violation("writer:panic", "%s into a sink that answers WouldBlock after %d bytes panicked: %s" % (op, c["after"], x["panic"][:200]), rp)
+        elif "ok" in x and x["ok"]["hex"] != refhex:
+            ctx.violation("writer:wouldblock-corrupts-stream", "%s into a non-blocking sink that answers WouldBlock once after %d of %d bytes returned Ok, but the sink received %d bytes that are not the stream (a retry re-sent bytes already accepted, or dropped some)" % (
+                op, c["after"], T, len(x["ok"]["hex"]) // 2), rp)
+        else:
+            n += 1
+    cjobs = [{"id": k, "calls": [{"op": "encode_concurrent", "enc": enc, "lit": lit, "threads": 4, "rounds": 60 if ctx.quick else 2000}]} for k, lit in enumerate((small, big))]
+    cres = run_api(ctx, exe, cjobs, "conc-enc")
+    for j in cjobs:
+        x = cres[j["id"]][0]
+        if "ok" not in x or x["ok"]["differing"]:
+            ctx.violation("writer:concurrent-encodes-differ", "4 threads encoding the same families at the same moment, each into its own buffer: %s" % json.dumps(x)[:300], {"calls": j["calls"]})
+        else:
+            n += 1
+    return n
+
+
 def refused_calls(ctx, exe):
     """'only append to their output' also holds for a call that FAILS: whatever the caller's buffer held before stays in front,
     whichever family of the slice is the one that cannot be encoded"""
@@ -331,6 +370,7 @@ def run(ctx):
     res = run_api(ctx, exe, [{"id": j["id"], "calls": j["calls"]} for j in jobs], "text", nproc=12)
     recs = judge_outputs(ctx, jobs, res)
     refused_calls(ctx, exe)
+    ctx.cov["nonblocking_sink_and_concurrent_encode_cases"] = writer_and_thread_cases(ctx, exe, "text")
     results = parse_with_tlc(ctx, recs, "t")
     nok, nlines, nfams = 0, 0, 0
     for r in recs:
